@@ -453,6 +453,18 @@ func c13(c *hx.Ctx) {
 			}
 		}
 	}
+	// Fibonacci-profile images using all 17 difference categories (16-bit; also 12/15-bit): the per-image optimal
+	// table needs the length-limiting loop; the independent decoder must be able to rebuild the DHT and read the scan
+	for _, p := range []int{16, 16, 15, 12} {
+		for _, nc := range []int{1, 3} {
+			for _, codec := range []int{1, 8, 4} {
+				c13EncoderConforms(c, codec, c02FibExact(c.R, nc, p), "fib-exact")
+			}
+		}
+	}
+	for _, codec := range []int{1, 8} { // the 2-D variant: 96x71, categories drawn with Fibonacci weights
+		c13EncoderConforms(c, codec, c02Content(c.R, 96, 71, 1, 16, "skewed"), "skewed-96x71")
+	}
 	// A: every P x codec x class
 	for p := 2; p <= 16; p++ {
 		for codec := 0; codec <= 8; codec++ {
